@@ -507,7 +507,12 @@ func checkDelta(v *vcase.Verdict, where string, c Case, unit string, row *benchs
 		plib, havePlib = p, true
 		t, nu := welch(a, b)
 		refP = tTwoSided(t, nu)
-		refTol = 1e-6
+		// The library works in float64: its running means and variances of
+		// n values carry a relative error of about n·2^-53 each, which the
+		// t statistic amplifies by |mean|/(standard error) and
+		// |mean|/(standard deviation). |t·dp/dt| < 1 and dp/dt < 1, so the
+		// p-value moves by at most about that amount.
+		refTol = 1e-6 + 50*float64(len(a)+len(b))*0x1p-53*tCondition(a, b)
 		v.Label("p_t_integrated")
 		if refP < alpha-2*refTol {
 			refGate = +1
